@@ -1,5 +1,5 @@
 (* Dispatch entries for the Make models. *)
-From BFG Require Import Base.Chars Base.Sx Shell.PosixQuote Make.MakeWrite Make.MakeRead.
+From BFG Require Import Base.Chars Base.Sx Shell.PosixQuote Make.MakeWrite Make.MakeRead Make.MakeNames.
 From Coq Require Import String.
 Local Open Scope N_scope.
 
@@ -45,5 +45,7 @@ Definition table : list (string * (sx -> sx)) := [
   ("make.expand", fun a => sx_opt sx_str (expand (un_vars (nth_sx 0 a)) (un_str (nth_sx 1 a))));
   ("make.assign_value", fun a => sx_opt sx_str (assign_value (un_vars (nth_sx 0 a)) (un_str (nth_sx 1 a))));
   ("make.recipe_shell_text", fun a => sx_opt sx_str (recipe_shell_text (un_vars (nth_sx 0 a)) (un_str (nth_sx 1 a))));
+  ("make.name_ok", fun a => L [sx_bool (target_ok (cls_of (nth_sx 0 a)) (un_str (nth_sx 1 a)));
+                                sx_bool (dep_ok (cls_of (nth_sx 0 a)) (un_str (nth_sx 1 a)))]);
   ("make.strip_comment", fun a => sx_str (strip_comment 0 (un_str (nth_sx 0 a))))
 ]%string.
